@@ -2,4 +2,5 @@ SPECIFICATION Spec
 CONSTANTS
   Rules = "structural"
   MaxLen = 4
+  Shared = FALSE
 CHECK_DEADLOCK FALSE
